@@ -465,6 +465,11 @@ func (cc *connectStreamingClientConn) Receive(msg any) error {
 	// converting the bytes to a message, an error reading from the network, or
 	// just an EOF. We're going to return it to the user, but we also want to
 	// setResponseError so Send errors out.
+	if errors.Is(err, io.EOF) && !errors.Is(err, errSpecialEnvelope) {
+		// The body ended before the end-of-stream message arrived: the response
+		// was cut short, which must not look like a clean end of the stream.
+		err = errorf(CodeInternal, "protocol error: missing end-of-stream message: %w", io.ErrUnexpectedEOF)
+	}
 	cc.duplexCall.SetError(err)
 	return err
 }
